@@ -107,8 +107,10 @@ func checkC09(p *Program, r *Report) {
 	// ---- extremes: walks
 	setRule("C09.extremes")
 	type walk struct {
-		f    *ssa.Function
-		next string // canonical term of the next node id
+		f      *ssa.Function
+		next   string // canonical term of the next node id
+		dirIdx int    // index of the bool parameter that selects this walk (-1: the function walks one way only)
+		dirVal bool
 	}
 	var walks []walk
 	for _, c := range callsIn(descent) {
@@ -125,11 +127,72 @@ func checkC09(p *Program, r *Report) {
 					continue
 				}
 				for i, ed := range ph.Edges {
-					if b.Dominates(b.Preds[i]) {
-						t := canonSession(e.eval(ed).String())
-						if strings.Contains(t, "Slim.Inners") {
-							walks = append(walks, walk{g, t})
+					if !b.Dominates(b.Preds[i]) {
+						continue
+					}
+					// one walker with a direction parameter: the fed-back value merges the two child choices
+					if inner, ok := ed.(*ssa.Phi); ok && len(inner.Edges) == 2 {
+						for k, alt := range inner.Edges {
+							t := canonSession(e.eval(alt).String())
+							if !strings.Contains(t, "Slim.Inners") {
+								continue
+							}
+							// the branch on a bool parameter that leads to this alternative
+							pred := inner.Block().Preds[k]
+							dirIdx, dirVal := -1, false
+							for _, blk := range g.Blocks {
+								iff, ok := lastInstr(blk).(*ssa.If)
+								if !ok {
+									continue
+								}
+								cond := iff.Cond
+								neg := false
+								if u, ok := cond.(*ssa.UnOp); ok && u.Op == token.NOT {
+									cond, neg = u.X, true
+								}
+								for pi, prm := range g.Params {
+									if cond == ssa.Value(prm) {
+										for si, sb := range blk.Succs {
+											if sb == pred || sb.Dominates(pred) {
+												dirIdx = pi
+												dirVal = (si == 0) != neg
+											}
+										}
+									}
+								}
+							}
+							walks = append(walks, walk{g, t, dirIdx, dirVal})
 						}
+						continue
+					}
+					t := canonSession(e.eval(ed).String())
+					if strings.Contains(t, "Slim.Inners") {
+						// both branches of "if toRight" may jump straight back to the header: the direction
+						// is read off the branch that dominates this back edge's source
+						dirIdx, dirVal := -1, false
+						pred := b.Preds[i]
+						for _, blk := range g.Blocks {
+							iff, ok := lastInstr(blk).(*ssa.If)
+							if !ok {
+								continue
+							}
+							cond := iff.Cond
+							neg := false
+							if u, ok := cond.(*ssa.UnOp); ok && u.Op == token.NOT {
+								cond, neg = u.X, true
+							}
+							for pi, prm := range g.Params {
+								if cond == ssa.Value(prm) {
+									for si, sb := range blk.Succs {
+										if len(sb.Preds) == 1 && (sb == pred || sb.Dominates(pred)) {
+											dirIdx = pi
+											dirVal = (si == 0) != neg
+										}
+									}
+								}
+							}
+						}
+						walks = append(walks, walk{g, t, dirIdx, dirVal})
 					}
 				}
 			}
@@ -197,18 +260,48 @@ func checkC09(p *Program, r *Report) {
 				}
 			}
 			n++
-			if !mayComeFromCall(ret.Results[0], last.f, 0) {
-				bad = append(bad, "the left id returned at "+p.Pos(ret.Pos())+" is not finished by "+shortFn(last.f))
+			if !mayComeFromCallDir(ret.Results[0], last.f, last.dirIdx, last.dirVal, 0) {
+				bad = append(bad, "the left id returned at "+p.Pos(ret.Pos())+" is not finished by the last-child walk of "+shortFn(last.f))
 			}
-			if !mayComeFromCall(ret.Results[2], first.f, 0) {
-				bad = append(bad, "the right id returned at "+p.Pos(ret.Pos())+" is not finished by "+shortFn(first.f))
+			if !mayComeFromCallDir(ret.Results[2], first.f, first.dirIdx, first.dirVal, 0) {
+				bad = append(bad, "the right id returned at "+p.Pos(ret.Pos())+" is not finished by the first-child walk of "+shortFn(first.f))
 			}
-			if mayComeFromCall(ret.Results[0], first.f, 0) || mayComeFromCall(ret.Results[2], last.f, 0) {
+			if mayComeFromCallDir(ret.Results[0], first.f, first.dirIdx, first.dirVal, 0) || mayComeFromCallDir(ret.Results[2], last.f, last.dirIdx, last.dirVal, 0) {
 				bad = append(bad, "the walks are applied to the wrong side at "+p.Pos(ret.Pos()))
 			}
 		}
 		r.Check(len(bad) == 0 && n > 0, "neighbour ids of "+shortFn(descent), p.Pos(descent.Pos()), "left = "+shortFn(last.f)+"(candidate), right = "+shortFn(first.f)+"(candidate)", strings.Join(bad, "; "))
 	}
+}
+
+// mayComeFromCallDir: v is (through phis) the result of a call of f whose direction argument (when the
+// walker has one) is the given constant.
+func mayComeFromCallDir(v ssa.Value, f *ssa.Function, dirIdx int, dirVal bool, d int) bool {
+	if d > 6 {
+		return false
+	}
+	switch x := v.(type) {
+	case *ssa.Call:
+		if calleeOf(x) != f {
+			return false
+		}
+		if dirIdx < 0 {
+			return true
+		}
+		if dirIdx < len(x.Call.Args) {
+			if b, ok := constBool(x.Call.Args[dirIdx]); ok {
+				return b == dirVal
+			}
+		}
+		return false
+	case *ssa.Phi:
+		for _, e := range x.Edges {
+			if mayComeFromCallDir(e, f, dirIdx, dirVal, d+1) {
+				return true
+			}
+		}
+	}
+	return false
 }
 
 // mayComeFromCall: v is (through phis) the result of a call of f.
